@@ -80,7 +80,8 @@ AllAs == SUBSET {"create", "fix", "trim", "update"}
 
 (* C02: after fix (and create) every managed part agrees with the observed value *)
 C02 == \A v \in Vals : ManagedEq(Assign(tm, v, {"create", "fix"}).term, v)
-HasPositional(t) == t.t = "ct" /\ Len(t.p) > 0
+\* (findings F8 / F30: positional arguments - and every call of the positional class - are reported per argument)
+HasPositional(t) == t.t = "ct" /\ (Len(t.p) > 0 \/ IsPos(t.c))
 C05F8 == \A v \in Vals : VEq(Eval(tm), v) => "fix" \notin Assign(tm, v, {}).cats    \* fails: finding F8
 \* the value can be repaired at all: after fix and update it is equal (no disagreeing user-controlled part)
 Repairable(v) == VEq(Eval(Assign(tm, v, {"fix", "update"}).term), v)
